@@ -21,6 +21,8 @@ def run(ctx):
     chk.rule('F1', 'the chain returns DROP only on a path where a filter call returned DROP; every other exit returns '
                    'PASS; an unknown name is skipped without calling anything', floor=4)
     chk.rule('F2', 'each chain element causes at most one filter call, with the name and argument taken from that element', floor=2)
+    chk.rule('F5', 'the walk over the chain ends only when the chain is exhausted or a filter dropped: no loop exit depends '
+                   'on the text of the current element (empty elements are skipped, not terminating)', floor=1)
     chk.rule('F3', 'filters are pure: they (and everything they reach) write no static storage, do not modify the '
                    'configuration and do not write through their argument', floor=6)
     chk.rule('F4', 'a dropped call is silent: nothing reachable from the DROP outcome emits, and nothing that can emit '
@@ -148,6 +150,78 @@ def run(ctx):
                'filter call %s does not take its name from the chain element just parsed, or its argument is not the '
                'element\'s own text (a copy into a fixed buffer truncates long arguments such as uid lists)' % render(c),
                how='both arguments derive from the tokeniser result')
+    # ---- F5: an empty (or otherwise odd) element is skipped, it never ends the evaluation -------------
+    live = C.reachable_blocks(F)
+    sccs = C._sccs(F, live)
+    pos = C.elem_positions(F)
+    for c in calls:
+        cb = pos[c.id][0]
+        loop = None
+        for comp in sccs:
+            if cb in comp and (len(comp) > 1 or cb in F.blocks[cb].succs):
+                loop = set(comp)
+        if loop is None:
+            chk.ob('F5', 'chain-is-walked-in-a-loop', False, c.where(), F.name, 'the filter call is not inside a loop')
+            continue
+        holders5 = set()
+        for t in toks:
+            h = common.holder(F, t)
+            if h is not None:
+                holders5.add(h)
+        # the current element: pointers from which the filter NAME derives
+        elem_pt = PtrTaint(F, lambda n: False, set())
+        name_arg = arg(c, 0)
+        elem_ids = set()
+        seen_ids = set()
+        todo = [name_arg]
+        steps = 0
+        while todo and steps < 200:
+            steps += 1
+            x = todo.pop()
+            for n in x.walk():
+                if n.k != 'DeclRefExpr' or n['ref']['kind'] != 'var' or n['ref']['id'] in seen_ids:
+                    continue
+                vid = n['ref']['id']
+                seen_ids.add(vid)
+                ctn = (n.get('ct') or '').rstrip()
+                if ctn.endswith('*'):
+                    elem_ids.add(vid)
+                todo += def_exprs(F, vid)
+                if ctn.endswith(']'):
+                    # a buffer: follow what it is filled from
+                    for cp in F.calls():
+                        if cp.get('callee') in ('strncpy', 'memcpy', 'strcpy', 'snprintf') and \
+                                (decl_of(arg(cp, 0)) or {}).get('id') == vid:
+                            todo += [a for a in cp.ch[2:] if a is not None]
+        # only pointers that are (re)assigned inside the loop are "the current element"
+        elem_ids = {i for i in elem_ids if i in holders5 or any(
+            pos.get(C.cfg_elem_of(F, n).id, (None,))[0] in loop
+            for k, n in __import__('engine.dataflow', fromlist=['def_sites']).def_sites(F, i) if k == 'assign')}
+        bad = []
+        for b in loop:
+            blk = F.blocks[b]
+            if blk.cond is None:
+                continue
+            leaves = [s for s, u in blk.all_succs if s is not None and not u and s not in loop]
+            if not leaves:
+                continue
+            cnd = blk.cond
+            reads = False
+            for n in cnd.walk():
+                if n.k == 'UnaryOperator' and n['op'] == '*' and (decl_of(n.ch[0]) or {}).get('id') in elem_ids:
+                    reads = True
+                if n.k == 'ArraySubscriptExpr' and (decl_of(n.ch[0]) or {}).get('id') in elem_ids:
+                    reads = True
+                if n.k == 'CallExpr' and n.get('callee') in ('strlen', 'strcmp', 'strncmp', 'strchr') and \
+                        any((decl_of(a) or {}).get('id') in elem_ids for a in n.ch[1:] if a is not None):
+                    reads = True
+            if reads:
+                bad.append(cnd)
+        chk.ob('F5', 'no-loop-exit-on-element-content', not bad, bad[0].where() if bad else c.where(), F.name,
+               'the loop over the chain is left when %s holds, a test of the CURRENT element\'s text: an empty or '
+               'unusual element then ends the evaluation and the filters after it are never consulted' % (
+                   render(bad[0]) if bad else ''),
+               how='loop exits depend only on the tokeniser state or a DROP verdict')
     # ---- F3 ----------------------------------------------------------------------------
     filters = common.filter_functions(prog)
     wp = writes_param_factory(prog)
